@@ -94,7 +94,8 @@ class C08(Prop):
         if name == "never-protocol":
             from .c06 import C06
             return C06.observe(self, ctx, "protocol-never", lines, results)
-        return self.observe_modes(ctx, name, lines, results)
+        from .c06 import strm_spec_observe
+        return self.observe_modes(ctx, name, lines, results) + strm_spec_observe(name, lines, results, ctx["impls"])
 
     def observe_modes(self, ctx, name, lines, results):
         """never == strip: the inner history under AutoStream::never equals that under StripStream"""
